@@ -224,6 +224,18 @@ CHECKS = {
             "translator, which is the strongest thing a generated-input technique can give for a compiler back end.",
             "Trusted base: vlib/rtlil_read.py, vlib/rtlil_eval.py (Yosys cell library semantics). $print/$check not executed.",
             "DESIGN.md §3, §4 C04"),
+    "C07": ("exploration",
+            "Hypothesis-generated hierarchies built to stress naming and port inference + C04's design trees; every emitted "
+            "document parsed by an independent RTLIL reader and judged by a structural validity predicate; foreign "
+            "instances compared with the descriptor",
+            "Well-formedness is a universal statement about every output; the check generates the situations that make it "
+            "hard (name clashes between signals, ports and submodules, private names, zero-width and unused ports, empty and "
+            "nested-empty modules among non-empty siblings, values routed across branches, memories, auto-added and "
+            "same-named I/O ports, instances with extreme parameter values and awkward strings) and runs a validity "
+            "predicate over the parsed text: references, unique names, widths, slice bounds, dense port indices, exactly "
+            "one driver per non-pad bit, submodule port agreement, instantiation of every module, exact instance contents.",
+            "vlib/rtlil_read.py (grammar) and vlib/rtlil_check.py (predicate) are the trusted base; names without whitespace.",
+            "DESIGN.md §3, §4 C07"),
 }
 
 TITLES = {}
@@ -232,7 +244,7 @@ with open(os.path.join(HERE, "properties.jsonl")) as f:
         p = json.loads(line)
         TITLES[p["id"]] = p["title"]
 
-NOT_YET = "check not built yet in this session (planned: see DESIGN.md §4); nothing is claimed for it until a check is registered"
+NOT_YET = "check not built (see DESIGN.md §4); nothing is claimed for it"
 
 manifest = {
     "version": 1,
